@@ -502,3 +502,11 @@ def resolve_slots(fn, e, slot=None, depth=0):
         here = _slot_of_pat(b['pat'], x['hid'])
         return [(b['bind'], here if here is not None else slot)]
     return [(x, slot)]
+
+
+def source_before(a, b):
+    """True if node a starts before node b in the source text of the same file."""
+    sa, sb = a.get('sp'), b.get('sp')
+    if not sa or not sb or sa[0] != sb[0]:
+        return False
+    return (sa[1], sa[2]) < (sb[1], sb[2])
